@@ -30,6 +30,7 @@
 import CklVerif.Lemmas.C20EvalAll
 import CklVerif.Lemmas.C05Basic
 import CklVerif.Driver.EvalCmd
+import CklVerif.Lemmas.C17EvalBase
 namespace Ckl.C20E
 open Ckl Ckl.C05
 
@@ -822,7 +823,9 @@ theorem unknown_native_pos {fuel inst env pos s nm} (hk : ld.knownNatives.contai
   simp only [callFn]
   rw [bind_ok (getS_run s)]
   have hk' : String.ofList nm ∉ ld.knownNatives := by simpa using hk
-  simp [callPure, argGet, dictGet, dictHas, bind_def, hk', throwE]
+  have hcd : callDate "bind_native" [("native", RVal.str nm)] pos = none :=
+    callDate_none_of_name _ _ (by decide) (by decide) (by decide)
+  simp [callPure, hcd, argGet, dictGet, dictHas, bind_def, hk', throwE]
 
 /-! ### non-vacuity of part 4, and part 5: an error on line 3 inside a function called on line 5 -/
 
